@@ -474,7 +474,7 @@ func (e *fnEnc) indexVal(a, i SVal, env *specEnv) SVal {
 	case a.t.Sort == SSlice:
 		et := types.Unalias(a.typ).Underlying().(*types.Slice).Elem()
 		es := e.sortOf(et)
-		comp, cs := e.elemComp(es)
+		comp, cs := e.elemCompT(et)
 		arr := sel(e.heapGet(env.st, comp, cs), slBase(a.t), ArrayOf(SInt, es))
 		return SVal{t: sel(arr, add(slOff(a.t), e.intOf(i)), es), typ: et}
 	case a.typ != nil:
@@ -814,9 +814,12 @@ func (e *fnEnc) evalCall(x *ECall, env *specEnv) SVal {
 		if e.strAbstract {
 			return SVal{t: e.abytes(env.st, a.t), typ: types.Typ[types.String]}
 		}
-		comp, cs := e.elemComp(SInt)
+		comp, cs := e.elemCompT(types.Typ[types.Uint8])
 		arr := sel(e.heapGet(env.st, comp, cs), slBase(a.t), ArrayOf(SInt, SInt))
 		return SVal{t: app(SStr, "mk-str", arr, slOff(a.t), slLen(a.t)), typ: types.Typ[types.String]}
+	case "baseOf":
+		need(1)
+		return SVal{t: slBase(args()[0].t)}
 	case "tagOf":
 		need(1)
 		return SVal{t: ifTag(args()[0].t)}
@@ -829,7 +832,7 @@ func (e *fnEnc) evalCall(x *ECall, env *specEnv) SVal {
 		a := args()[0]
 		et := types.Unalias(a.typ).Underlying().(*types.Slice).Elem()
 		es := e.sortOf(et)
-		comp, cs := e.elemComp(es)
+		comp, cs := e.elemCompT(et)
 		return SVal{t: sel(e.heapGet(env.st, comp, cs), slBase(a.t), ArrayOf(SInt, es))}
 	}
 	// a pure Go function under contract, applied as a mathematical function
